@@ -2,13 +2,18 @@
  * tickit_term_* entry points of src/term.c) on a terminal without a tty and logs, per request, the bytes handed to
  * the output function and the return value.
  *
- *   new L C slrm colon rgb     build an xterm terminal L x C; the three capability bits are set by pushing the
- *                              DECRQM / DECRQSS replies through tickit_term_input_push_bytes
+ *   new L C slrm colon rgb [vis blink]
+ *                              build an xterm terminal L x C and answer the start-up probes through
+ *                              tickit_term_input_push_bytes: slrm / vis / blink are the DECRPM reply VALUES (0 not
+ *                              recognised, 1 set, 2 reset, 3 permanently set, 4 permanently reset) for DEC modes
+ *                              69 / 25 / 12 (vis, blink default to 1, 2); colon, rgb select the DECRQSS SGR reply
+ *   resize L C                 tickit_term_set_size (the emulator's window changed)
  *   goto l c | move d r | print <hex> | printn <hex> n | erasech n moveend(0 no,1 yes,-1 maybe) | clear
  *   scroll top left lines cols downward rightward
  *   setpen [bg=N] [rv=0|1] | chpen [bg=N] [rv=0|1]
  *
- * Observation: `<hex bytes> ret=<r>`; for `new`: `<hex start bytes> caps=<slrm> <colon> <rgb8> size=<L> <C>`.
+ * Observation: `<hex bytes> ret=<r>`; for `new`: `<hex start bytes> caps=<slrm> <colon> <rgb8> size=<L> <C>
+ * modes=<cursorvis> <cursorblink>`; for `resize`: `<hex bytes> size=<L>x<C>` (as tickit_term_get_size reports it).
  */
 #define HCOMMON_MAIN
 #include "hcommon.h"
@@ -68,16 +73,19 @@ static void engine_op(int argc, char **argv)
   outlen = 0;
 
   if(strcmp(op, "new") == 0) {
-    if(argc != 6 || tt) { obs("bad-op"); return; }
+    if((argc != 6 && argc != 8) || tt) { obs("bad-op"); return; }
     int L = atoi(argv[1]), C = atoi(argv[2]), slrm = atoi(argv[3]), colon = atoi(argv[4]), rgb = atoi(argv[5]);
+    int vis = argc == 8 ? atoi(argv[6]) : 1, blink = argc == 8 ? atoi(argv[7]) : 2;
+    if(slrm < 0 || slrm > 4 || vis < 0 || vis > 4 || blink < 0 || blink > 4) { obs("bad-op"); return; }
+    char reply[32];
     tt = tickit_term_build(&(struct TickitTermBuilder){
       .termtype = "xterm", .output_func = output, .output_func_user = NULL });
     if(!tt) { obs("build-failed"); return; }
     tickit_term_set_size(tt, L, C);
     /* replies to the probes sent by start(): DECRQM 69 / 25 / 12, DECRQSS " q" and "m" */
-    push(slrm == 2 ? "\e[?69;2$y" : slrm ? "\e[?69;1$y" : "\e[?69;0$y");
-    push("\e[?25;1$y");
-    push("\e[?12;2$y");
+    snprintf(reply, sizeof reply, "\e[?69;%d$y", slrm);  push(reply);
+    snprintf(reply, sizeof reply, "\e[?25;%d$y", vis);   push(reply);
+    snprintf(reply, sizeof reply, "\e[?12;%d$y", blink); push(reply);
     push("\eP1$r2 q\e\\");
     if(colon && rgb)  push("\eP1$r38:2:0:1:2m\e\\");
     else if(colon)    push("\eP1$r38:5:255m\e\\");
@@ -87,9 +95,22 @@ static void engine_op(int argc, char **argv)
     tickit_term_get_size(tt, &l2, &c2);
     obs_hex(outbuf, outlen);
     obs(" caps=%d %d %d size=%d %d", getcap("xterm.cap_slrm"), getcap("xterm.cap_csi_sub_colon"), getcap("xterm.cap_rgb8"), l2, c2);
+    int mv = -1, mb = -1;
+    tickit_term_getctl_int(tt, TICKIT_TERMCTL_CURSORVIS, &mv);
+    tickit_term_getctl_int(tt, TICKIT_TERMCTL_CURSORBLINK, &mb);
+    obs(" modes=%d %d", mv, mb);
     return;
   }
   if(!tt) { obs("bad-op"); return; }
+
+  if(strcmp(op, "resize") == 0 && argc == 3) {
+    int l2 = -1, c2 = -1;
+    tickit_term_set_size(tt, atoi(argv[1]), atoi(argv[2]));
+    tickit_term_get_size(tt, &l2, &c2);
+    obs_hex(outbuf, outlen);
+    obs(" size=%dx%d", l2, c2);
+    return;
+  }
 
   int ret = 1;
   if(strcmp(op, "goto") == 0 && argc == 3)
